@@ -45,6 +45,7 @@ class Exec:
         self.delivered = {}  # wait serial -> first value delivered by resume() while WAITING
         self.listener = None
         self.harness_errors = []
+        self.communicator = None  # given to the process constructor (C16)
         self.capture = None  # None, or a medium name: checkpoints are taken at every state entry
         self.checkpoints = []  # dicts {index, n_trace, state, waits, data | error}
         self.wait_base = 0  # waits that happened before this incarnation (restored runs)
@@ -93,7 +94,7 @@ class Exec:
         self.world.listener_plan[pid] = case.get('listener', [])
         with self.loop.as_running():
             try:
-                self.proc = cls(inputs=programs.dec(case.get('inputs', (case.get('program') or {}).get('inputs'))), pid=pid, loop=self.loop)
+                self.proc = cls(inputs=programs.dec(case.get('inputs', (case.get('program') or {}).get('inputs'))), pid=pid, loop=self.loop, communicator=self.communicator)
             except Exception as exc:  # noqa: BLE001
                 self.construct_error = exc
                 return False
